@@ -476,7 +476,10 @@ def big_case(draw):
             "nsrc": draw(st.sampled_from([1, 2, 3, 3, 40])), "nsnk": draw(st.sampled_from([1, 2, 3, 3, 64, 65, 100])),
             "container": draw(st.sampled_from(["ndarray", "ndarray", "ndarray_F", "csr", "csc"])),
             "pops": draw(st.sampled_from(["given", "given", "computed"])),
-            "density": draw(st.sampled_from([1.0, 0.2]))}
+            "density": draw(st.sampled_from([1.0, 0.2])),
+            # nearly all population in the end states: reactive fluxes of 1e-9 .. 1e-17 (absolute magnitudes have no
+            # meaning: a flux of 1e-17 is as much a flux as one of 0.1)
+            "ends_weight": draw(st.sampled_from([0, 0, 1e6, 1e12, 1e15]))}
 
 
 def run_big(case):
@@ -488,12 +491,16 @@ def run_big(case):
         for k in range(n):
             Wt[k, (k + 1) % n] += 0.5
     Wt = Wt + Wt.T
-    r = Wt.sum(axis=1)
-    T = Wt / r[:, None]
-    pi = r / r.sum()
     perm = rng.permutation(n)
     src = sorted(int(x) for x in perm[:case["nsrc"]])
     snk = sorted(int(x) for x in perm[case["nsrc"]:case["nsrc"] + case["nsnk"]])
+    if case.get("ends_weight"):
+        for s_ in src + snk:
+            Wt[s_, s_] += case["ends_weight"] * n
+        case = dict(case, pops="given")          # (a chain this metastable has no accurately computable eigenvector)
+    r = Wt.sum(axis=1)
+    T = Wt / r[:, None]
+    pi = r / r.sum()
     qf = R.ref_committor(T, src, snk)
     qb = 1.0 - qf                                         # reversible chain
     Fref = pi[:, None] * qb[:, None] * T * qf[None, :]
@@ -529,6 +536,7 @@ def run_big(case):
     tiny = int(((Nref > 0) & (Nref < 1e-8)).sum())
     return Info(tiny > 0 or len(snk) > 64, ["big_container=" + case["container"], "big_pops=" + case["pops"],
                            "big_sinks=%s" % ("<=3" if len(snk) <= 3 else "64" if len(snk) == 64 else ">64"),
+                           "ends_weight=%g" % case.get("ends_weight", 0),
                            "edges_below_1e-8=%s" % ("0" if tiny == 0 else "some" if tiny < 100 else "many")])
 
 
